@@ -48,6 +48,7 @@ class World:
         self.entries = {}      # eid -> Entry (insertion ordered)
         self.inputs = {}       # name -> plain python object held by the program
         self.zombies = []      # parked cycles
+        self.sealed = {}       # name -> (Row the program holds but has not looked at yet, expected values)
         self._eid = 0
         self.created = 0
 
